@@ -160,6 +160,40 @@ def compile_cmd(job, scratch, paths, out):
     return cmd
 
 
+def parse_cbmc_text(path):
+    """Plain-text cbmc output -> (results, messages, status) in the shape of parse_cbmc_json."""
+    try:
+        txt = open(path, errors='replace').read()
+    except OSError as e:
+        return None, ['no cbmc output: %s' % e], None
+    results, msgs = [], []
+    cur_file, cur_fn = '', ''
+    seen_results = False
+    for line in txt.split('\n'):
+        if line.startswith('** Results:'):
+            seen_results = True
+            continue
+        m = re.match(r'^\[(\S+)\] (?:line (\d+) )?(.*): (SUCCESS|FAILURE|UNKNOWN|ERROR)$', line)
+        if m and seen_results:
+            results.append({'property': m.group(1), 'description': m.group(3), 'status': m.group(4),
+                            'sourceLocation': {'file': cur_file, 'function': cur_fn, 'line': m.group(2) or '0'}})
+            continue
+        m = re.match(r'^(\S.*) function (\S+)$', line)
+        if m and seen_results:
+            cur_file, cur_fn = m.group(1), m.group(2)
+            continue
+        low = line.lower()
+        if 'out of memory' in low or line.startswith('CONVERSION ERROR') or 'error:' in low or low.startswith('too many addressed objects') \
+                or 'invariant check failed' in low or 'usage error' in low:
+            msgs.append('ERROR: ' + line.strip()[:300])
+    status = 'success' if 'VERIFICATION SUCCESSFUL' in txt else ('failure' if 'VERIFICATION FAILED' in txt else None)
+    if not seen_results or status is None:
+        if 'VERIFICATION ERROR' in txt or msgs:
+            return (results or None), msgs or ['ERROR: cbmc reported VERIFICATION ERROR'], None
+        return None, msgs or ['no result section in cbmc output: ' + txt[-300:]], None
+    return results, msgs, status
+
+
 def parse_cbmc_json(path):
     """Return (results, messages, status). results: list of dicts."""
     try:
@@ -395,8 +429,11 @@ def run_job1(job, tier='quick', want_trace=False, keep=None, select=None):
                                             if groups != [None] else []) + [cur]))
 
         def run_group(gi_, names):
-            out = os.path.join(scratch, 'out%d.json' % gi_)
-            cmd = list(base)
+            """One cbmc process.  Plain-text UI unless a trace is wanted: with --json-ui cbmc always
+            emits the full counterexample trace of every failing obligation, which for harnesses with
+            large symbolic objects costs gigabytes (measured: 8 GB / 170 s instead of 40 MB / 1 s)."""
+            out = os.path.join(scratch, 'out%d.%s' % (gi_, 'json' if want_trace else 'txt'))
+            cmd = [c for c in base if c != '--json-ui'] if not want_trace else list(base)
             if names is not None:
                 for n in names:
                     cmd += ['--property', n]
@@ -407,9 +444,14 @@ def run_job1(job, tier='quick', want_trace=False, keep=None, select=None):
                 rc, so, se, dt, st = run_tool(cmd, scratch, job.timeout, job.mem_gb, out_path=out)
             if st == 'timeout':
                 return ('timeout', 'cbmc timed out after %ds (group %d: %s)' % (job.timeout, gi_, (names or ['all'])[:3]), dt, None)
-            results, msgs, status = parse_cbmc_json(out)
+            if want_trace:
+                results, msgs, status = parse_cbmc_json(out)
+            else:
+                results, msgs, status = parse_cbmc_text(out)
             if results is None:
                 return ('error', 'cbmc rc=%s no result list (group %d) %s %s' % (rc, gi_, msgs[:3], se[-1500:]), dt, None)
+            if any('out of memory' in m.lower() for m in msgs):
+                return ('error', 'cbmc ran out of memory (group %d): %s' % (gi_, msgs[:2]), dt, None)
             return ('ok', [m for m in msgs if 'ERROR' in m][:5], dt, results)
 
         import concurrent.futures as _cf
